@@ -15,12 +15,19 @@ interpreter `Model/Peg.lean`, the builders `Model/Build.lean` driven by the GENE
 reference string semantics `Spec/Lex.lean`. The model is tied to the code by the two translators and by K of
 `harness/src/bin/c07.rs` (full ASTs with positions, error positions, panic sites).
 
+All theorems are about this MODEL (interpreter + translated grammar + builder model), none is about the pest library or the
+Rust builders themselves.
+
 What is proved here: positions (the line/column the builders report is an exact, invertible function of the offset
-of the pair, and the text of a name/number node is the input slice at that position), the escape arms of string
-decoding, terminal matching, and kernel-checked witnesses of the defects of DESIGN §9 t–v on the model.
-`∀ A τ, parse (render A τ) = A` itself is proved in `Props/C07Doc.lean` for executable documents (with `#import` statements)
-and for type-system documents (`Props/C07Lead.lean`: with the optional leading separators); what is NOT proved is listed in
-the OPEN block at the end and carried by K+O.
+of the pair, and the text of a name/number node is the input slice at that position), the span invariant and the exactness of
+the implicit skip for any grammar table (`pair_span`, `skip_exact`), terminal matching, `render_parse_type`, string literals as
+EMBEDDED literals (`string_decode*` for the canonical `specEscape` form, `string_decode_general(_spec)` for every escape form,
+`parse_render_block_string_raw` for block strings — returned raw, open finding t), and kernel-checked witnesses of the defects
+of DESIGN §9 t–v and of the surrogate-pair defect (fff8e9c) on the model.
+`∀ A τ, parse (render A τ) = A` itself is proved — under the explicit side conditions listed in the OPEN block at the end — in
+`Props/C07Doc.lean` for executable documents (with `#import` statements) and for type-system documents (`Props/C07Lead.lean`:
+with the optional leading separators written everywhere); what is NOT proved is listed in the OPEN block at the end and carried
+by K+O.
 -/
 namespace NitroVerif.C07
 open NitroVerif.Peg NitroVerif.Build NitroVerif.Gen NitroVerif.Gen.Parts NitroVerif.Spec.Lex NitroVerif
@@ -485,8 +492,9 @@ PROVED in the third stage (this file, `Props/C07Doc.lean`, `Props/C07Lead.lean`;
     (`# import: see below`, `#import "x"`, `# import 2 files`) — ALL theorems of C07Value / C07Doc / C07Lead hold for them;
   * every escape form of normal string literals: `string_decode_general` (any list of items `plain | \x | \uXXXX | \u{X…}`:
     the pair tree, what `build_string_value` returns — surrogate pairs combined —, which escape `validate_unicode_escapes`
-    reports) and `string_decode_general_spec` (the validation accepts iff the spec's StringValue semantics
-    `GqlString.decodeStringLiteral literal` is defined, and then the value is that);
+    reports) and `string_decode_general_spec` (for literals whose unescaped characters are SourceCharacters — hypothesis
+    `hsrc` —: the validation accepts iff the spec's StringValue semantics `GqlString.decodeStringLiteral literal` is defined,
+    and then the value is that); both for NON-EMPTY literals of `AllOk` items, the empty literal is `string_decode_at`;
   * block strings: `parse_render_block_string_raw` (for every body the grammar reads to its end the parsed value is EXACTLY the
     raw text between the delimiters — open finding t characterised by a theorem) and `block_string_value_spec_iff`;
     both literal forms in the two contexts where the grammar has strings — as a `Value` (through `build_value`) and as a
@@ -527,9 +535,17 @@ theorem parse_render_type_system_document with a final comment that is not termi
   -- proved for executable documents (`parse_render_operation_document_full`, `eof`); for type-system documents the last
   -- token of the last item varies with the item kind and the chain states "a token follows" (`Tok`), carried by K/O
   -- (`comment_eof_counterexample` is the kernel-checked witness `scalar S #`).
+theorem parse_render_type_system_document with the leading `&` / `|` written in SOME lists of a document and not in others,
+  or written (`_lead`) in a document that contains the bare `interface I` / `extend interface I`
+  -- `parse_render_type_system_document(_full)` never writes the optional separator, `…_lead` writes it in every non-empty
+  -- list and still has the old condition `WFTsItem`; a per-list choice would need the chain re-proved with that parameter.
+theorem parse_render for texts with an EMPTY gap where the renderings force a space although the grammar needs none
+  -- between two selections, between two items of a type-system document (even after `}`), between two entries of a
+  -- `{ … }` / `( … )` body of a type-system definition, after `import` and after every import target that is a name.
 theorem parse_render : ∀ A τ, parseModel (render A τ) = A      -- the full document language
+  -- OPEN only in this unrestricted form (the cases above, and `A` / `τ` outside the side conditions below).
   -- PROVED (Props/C07Doc.lean, Props/C07Lead.lean) for both entry points, at the strength "every well-formed document, every
-  -- trivia assignment":
+  -- trivia assignment" — of the MODEL (`parseOp` / `parseTs`: generated grammar + interpreter + builder model), not of pest:
   --  * EXECUTABLE documents: `parse_render_operation_document_full` (+ `_erase`): for every non-empty list of well-formed
   --    operations / fragments / `#import` statements, every trivia assignment, every choice of the `{ … }` shorthand, every
   --    number of spaces after the `#` of an import statement, optionally a final unterminated comment,
